@@ -415,6 +415,13 @@ def main(argv=None):
     }
     EVID.mkdir(exist_ok=True)
     (EVID / (prop + ".json")).write_text(json.dumps(evidence, indent=1, default=str))
+    vt = {}
+    for r in violations:
+        vt[r["issue"]["tag"]] = vt.get(r["issue"]["tag"], 0) + 1
+    if vt:
+        print("violation tags: %s" % json.dumps(vt, sort_keys=True))
+    if b_breaks:
+        print("B-break cases: %d, e.g. %s" % (len(b_breaks), json.dumps(b_breaks[0]["case"])[:300]))
     print("%s %s: %d cases (%d nontrivial), %d theorems audited, A-breaks=%d, known=%d, violations=%d, %.1fs" % (
         prop, args.tier, len(cases), len(nontrivial), len(lean.theorems), len(a_breaks), len(known_hit),
         len(violations), time.time() - t0))
